@@ -65,7 +65,7 @@ PROPS["C07"] = {
 }
 PROPS["C11"] = {
     "level": "exploration",
-    "rule": "rapidcheck-generated write histories on every container with a rewritable header (all but RAW; CAF/ALAC excluded by the statement): partition into write calls with explicit SFC_UPDATE_HEADER_NOW at random points or SFC_SET_UPDATE_HEADER_AUTO; optionally a seek back, an overwrite and an update in the middle of the file followed by a write without a seek; optionally an RDWR handle with a read between the last write and the update; optionally the audio through sf_write_raw; crash point = byte image of the virtual file right after each update / each write in auto mode, parsed by an independent handle; "
+    "rule": "rapidcheck-generated write histories on every container with a rewritable header (all but RAW; CAF/ALAC excluded by the statement): partition into write calls with explicit SFC_UPDATE_HEADER_NOW at random points or SFC_SET_UPDATE_HEADER_AUTO; optionally a seek back, an overwrite and an update in the middle of the file followed by a write without a seek; optionally an RDWR handle with a read between the last write and the update; optionally the audio through sf_write_raw; crash point = byte image of the virtual file right after each update / each write in auto mode, parsed by an independent handle; the finished file must decode to the same frames as a twin written in one call with no update request; "
             "non-trivial = a second or later snapshot taken at a position that is not a multiple of the block length (any second snapshot for sample-granular encodings); distinct = hash of (format, channels, N, type, partition, mode). coverage.snapshots_checked counts the crash points examined",
     "assumptions": BASE_ASSUME + ["a crash is modelled as a copy of the bytes the virtual I/O layer had accepted when the update returned (no partial write of the update itself)"],
     "stages": [
@@ -145,7 +145,7 @@ PROPS["C08"] = {
 
 PROPS["C09"] = {
     "level": "exploration",
-    "rule": "rapidcheck-generated histories (1-25 calls) on handles in mode {read, write, rdwr} over 12 representative formats (one per wrapper family incl. block codecs and non-seekable ones): valid reads/writes/seeks/commands/set_string mixed with each invalid class - wrong-mode read/write, item count not divisible by channels, negative count, unknown whence, whence with the wrong mode bits, out-of-range and negative seek, unknown command id, NULL data, set_string on a read handle / NULL / unknown type, set_chunk NULL / on a format without chunks, and 10 failing sf_open variants (bad mode, NULL SF_INFO, zero major/minor, unknown format, missing file, empty file, directory, VIO table without read, garbage content); "
+    "rule": "rapidcheck-generated histories (1-25 calls) on handles in mode {read, write, rdwr} over 12 representative formats (one per wrapper family incl. block codecs and non-seekable ones): valid reads/writes/seeks/commands/set_string mixed with each invalid class - wrong-mode read/write, item count not divisible by channels, negative count, unknown whence, whence with the wrong mode bits, out-of-range and negative seek, unknown command id, NULL data, set_string on a read handle / NULL / unknown type, set_chunk NULL / on a format without chunks, and 10 failing sf_open variants (bad mode, NULL SF_INFO, zero major/minor, unknown format, missing file, empty file, directory, VIO table without read, garbage content; and VIO tables lacking the write / read / get_filelen / seek callback the mode needs, two of them on a valid image opened RDWR); a write on a descriptor the kernel refuses (read-only descriptor, /dev/full) must fail, record an error and give sf_strerror (handle) and sf_error_str a real text; "
             "plus the whole sf_error_number table 0..SFE_MAX_ERROR; raw reads / writes whose byte count is not a whole number of frames; a seek beyond the end of a write / RDWR handle of a block codec (a refusal must leave the digest, file bytes included, unchanged); over-long path names; every failing open preceded by a successful one so that the global error is really set by the failure; 22 representative formats (second group added for the remaining seek / codec wrappers); non-trivial = a history with at least one invalid call followed by a valid one; distinct = hash of (format, mode, ops)",
     "assumptions": BASE_ASSUME + ["where an error is 'recorded' follows each call's documentation: sf_error(handle) for read/write/seek, the return value for sf_set_string / sf_set_chunk / sf_command(GET_CURRENT_SF_INFO), sf_error(NULL) for sf_open",
                                   "zero-length reads/writes are not generated (they return before the error is cleared; the statement does not classify them)",
